@@ -1,4 +1,5 @@
 """C10  Looking at an array never changes anything."""
+import numpy as np
 from hypothesis import strategies as st
 
 from .. import gen
@@ -17,13 +18,25 @@ ASSUMPTIONS = ["writes to X while a never-materialised selection over X's buffer
                "(counted): that region is the listed known finding K1, exercised by the directed probe",
                "applicability of steps is decided on a third, freshly-rebuilt world so that deciding is not itself a read"]
 
-READ = st.tuples(st.integers(0, 8), c06.VAR, st.sampled_from(READ_KINDS)).map(list)
+READ_NAMED = st.tuples(st.integers(0, 8), c06.VAR, st.sampled_from(READ_KINDS)).map(list)
+# ... or any non-writing operation of the program vocabulary (index, ufunc, reduction, array function, observer)
+READ_OP = st.tuples(st.integers(0, 8), st.just("step"), st.one_of(c06.INDEX, *c06.PRODUCERS, *c06.OBSERVERS)).map(list)
+
+
+@st.composite
+def read_st(draw):
+    return draw(READ_NAMED) if draw(st.integers(0, 2)) == 0 else draw(READ_OP)
+
+
+READ = read_st()
 
 
 def body_history(case, ctx):
     ctx.label(*gen.shape_labels(case["lens"]), "depth:%d" % len(case["steps"]), "reads:%d" % min(len(case["reads"]), 4))
     n = len(case["steps"])
     reads = [[p % n, v, k] for p, v, k in case["reads"]]
+    if any(v == "step" and k[0] in ("assign", "fill", "maskassign", "assign-from") for _, v, k in reads):
+        raise AssertionError("a writer was generated as a read")   # harness error, cannot happen with READ_OP
     it, landed = run_program(case, "reads", ctx, reads=reads)
     ctx.nt(landed > 0)
 
@@ -51,9 +64,156 @@ def probe_case(draw, tier):
     return {"lens": lens, "steps": [sel, write, ["tolist", 1]], "read": draw(st.sampled_from(["tolist", "repr", "ravel", "iter", "ufunc"]))}
 
 
+# ---------------------------------------------------------------- one array, one read, content compared with the rows it was built from
+
+NAMED_REDUCTIONS = ["sum", "prod", "any", "all", "max", "min", "mean", "argmax", "argmin"]
+UFUNC_REDUCE = ["add", "multiply", "logical_and", "logical_or", "logical_xor", "bitwise_and", "bitwise_or", "bitwise_xor", "gcd", "hypot",
+                "maximum", "minimum"]
+SINGLE_READS = ([["named", k] for k in READ_KINDS] + [["reduce", f, sp] for f in NAMED_REDUCTIONS for sp in ("method", "np")]
+                + [["reduce-none", f] for f in ("sum", "any", "all", "max", "mean")] + [["ufunc-reduce", u] for u in UFUNC_REDUCE]
+                + [["accumulate", u] for u in ("add", "subtract", "bitwise_xor")]
+                + [["fn", f] for f in ("cumsum", "sort", "unique", "unique-counts", "diff", "nonzero", "colcounts", "colmean", "getcol0", "astype-float",
+                                       "astype-bool", "zeros_like", "where", "subset", "maskindex", "concat1", "neg", "add-scalar", "add-column", "compare",
+                                       "equals-self", "rslice", "iter-rows", "row-last", "cell", "col0", "alias", "empty-tuple")])
+
+
+def apply_single_read(x, read, n):
+    from npstructures import ragged_slice
+    k = read[0]
+    if k == "named":
+        from ..prog import do_read
+        return do_read(x, read[1])
+    if k == "reduce":
+        return getattr(x, read[1])(axis=-1) if read[2] == "method" else getattr(np, read[1])(x, axis=-1)
+    if k == "reduce-none":
+        return getattr(x, read[1])()
+    if k == "ufunc-reduce":
+        return getattr(np, read[1]).reduce(x, axis=-1)
+    if k == "accumulate":
+        return getattr(np, read[1]).accumulate(x, axis=-1).tolist()
+    f = read[1]
+    if f == "cumsum":
+        return np.cumsum(x, axis=-1).tolist()
+    if f == "sort":
+        return x.sort().tolist()
+    if f == "unique":
+        return np.unique(x, axis=-1).tolist()
+    if f == "unique-counts":
+        return [r.tolist() for r in np.unique(x, axis=-1, return_counts=True)]
+    if f == "diff":
+        return np.diff(x, axis=-1).tolist()
+    if f == "nonzero":
+        return np.nonzero(x)
+    if f == "colcounts":
+        return x.col_counts()
+    if f == "colmean":
+        return x.mean(axis=0)
+    if f == "getcol0":
+        return x.get_column_values(0)
+    if f == "astype-float":
+        return x.astype("float64").tolist()
+    if f == "astype-bool":
+        return x.astype(bool).tolist()
+    if f == "zeros_like":
+        return np.zeros_like(x).tolist()
+    if f == "where":
+        return np.where(x > 0, x, x).tolist()
+    if f == "subset":
+        return x.subset(x > 0).tolist()
+    if f == "maskindex":
+        return x[x > 0]
+    if f == "concat1":
+        return np.concatenate([x, x], axis=-1).tolist()
+    if f == "neg":
+        return (abs(x)).tolist()
+    if f == "add-scalar":
+        return (x + 1).tolist()
+    if f == "add-column":
+        return (x + np.arange(n).reshape(n, 1)).tolist()
+    if f == "compare":
+        return (x == x).tolist()
+    if f == "equals-self":
+        return x.equals(x)
+    if f == "rslice":
+        return ragged_slice(x, np.zeros(n, dtype=int)).tolist()
+    if f == "iter-rows":
+        return [r.sum() for r in x]
+    if f == "row-last":
+        return x[-1]
+    if f == "cell":
+        return x[0, 0]
+    if f == "col0":
+        return x[:, 0]
+    if f == "alias":
+        return x[...].tolist()
+    if f == "empty-tuple":
+        return x[()].tolist()
+    raise ValueError(read)
+
+
+def _selftest_reads():
+    """every read of the vocabulary must be executable on an ordinary array: a typo in the harness would otherwise be
+    swallowed as a 'refused read' and make the sub-check vacuous"""
+    from npstructures import RaggedArray
+    for read in SINGLE_READS:
+        x = RaggedArray(np.array([3, 1, 2, 5, 4], dtype=np.int64), [2, 3])
+        try:
+            apply_single_read(x, read, 2)
+        except (NameError, AttributeError, ImportError, ValueError, KeyError) as e:
+            if isinstance(e, ValueError) and "unknown" not in str(e) and read[0] != "fn":
+                continue
+            raise AssertionError(f"harness self-test: read {read} failed on a plain array: {e!r}")
+
+
+_SELFTESTED = []
+
+
+def body_single_read(case, ctx):
+    """Read-only operations never change the content of any array: one array (fresh or a pending selection), one read-only
+    operation of a broad vocabulary (its own outcome is not asserted here, it may even be refused), then the array must still
+    hold exactly the rows it was built from, and a follow-up broadcast against a float column must still equal numpy's."""
+    from ..oracle import np_rows, np_flat, lazy_ra, expect_unchanged, lib, arrays_equal
+    from ..core import Violation
+    if not _SELFTESTED:
+        _selftest_reads()
+        _SELFTESTED.append(True)
+    a, read = case["a"], case["read"]
+    rows = np_rows(a)
+    n = len(rows)
+    x = lazy_ra(rows, a["dt"], case["lz"])
+    ctx.label(*gen.shape_labels(a["lens"]), "dt:" + a["dt"], "read:" + ":".join(str(t) for t in read[:2]), "pending" if case["lz"] else "fresh",
+              "uniform-lengths" if len(set(a["lens"])) == 1 else "mixed-lengths")
+    ctx.nt(a["dt"] != "int64" or len(set(a["lens"])) == 1)
+    with np.errstate(all="ignore"):
+        lib(apply_single_read, x, read, n)
+        expect_unchanged(x, rows, a["dt"], "read-changed-content", read=read)
+        col = np.array([[float("inf"), 0.1, 1e300, -2.5, 7.0][i % 5] for i in range(n)], dtype=np.float64).reshape(n, 1)
+        exp = lib(lambda: np.maximum(np_flat(a), np.repeat(col.ravel(), a["lens"])))
+        if exp.ok:
+            got = lib(lambda: np.asarray(np.maximum(x, col).ravel()))
+            if not got.ok or not arrays_equal(got.value, exp.value):
+                raise Violation("read-changed-later-outcome", read=read, expected=exp.brief(), got=got.brief())
+
+
+@st.composite
+def single_read_case(draw, tier):
+    dt = draw(st.sampled_from(gen.ALL_DT))
+    mode = draw(st.integers(0, 3))
+    if mode == 0:      # uniform row lengths (every row its own reduction / rectangular)
+        L = draw(st.sampled_from([1, 1, 1, 2, 3, 0]))
+        lens = [L] * draw(st.integers(1, 5))
+        a = {"lens": lens, "dt": dt, "vals": draw(gen.flat_values(dt, sum(lens), specials=False))}
+    else:
+        a = draw(gen.ragged(tier, dts=[dt], min_rows=1, specials=False))
+    return {"a": a, "read": draw(st.sampled_from(SINGLE_READS)), "lz": draw(st.sampled_from([0, 0, 0, 1, 2, 3, 4, 5, 6]))}
+
+
 SUBCHECKS = [
     SubCheck("histories", body_history, history_case, quick=14000, thorough=1000000, shards_quick=14,
              doc="program with vs. without inserted read-only operations (K1 region steered around)"),
+    SubCheck("single-read-preserves-content", body_single_read, single_read_case, quick=14000, thorough=800000, shards_quick=8,
+             doc="one array of any dtype / shape (uniform row lengths boosted), one of ~90 read-only operations, then content and a "
+                 "follow-up broadcast are compared with the generating rows / numpy"),
     SubCheck("probe-K1-lazy-selection-aliases-source", body_probe_k1, probe_case, quick=300, thorough=3000, shards_quick=1, shards_thorough=1,
              finding_id="K1-lazy-selection-aliases-source",
              doc="directed probe: select; optional read; write source; observe - the selection's content depends on whether it was read first"),
